@@ -126,6 +126,16 @@ def snapshot_cases():
                                    A.For(V("_"), A.lst(I(1), I(2)), [A.If([(A.Bool(True), [])], [A.Break()]), P(S("iter"))]),
                                    A.Declare(V("n"), I(0)), A.While(A.Bin("<", V("n"), I(2)), [A.OpAssign("+", V("n"), I(1)), A.If([(A.Bin("==", V("n"), I(1)), [])], [P(S("second"))])]),
                                    A.FuncStmt("f", [], False, [A.If([(A.Bool(True), [])], [A.Return(S("WRONG"))]), A.Return(S("ok"))]), P(A.call("f"))]
+    RN = lambda: A.Return(A.Null())
+    cases["return_null_leaves_the_function"] = [
+        A.FuncStmt("f", [], False, [A.For(V("x"), A.lst(I(1), I(2)), [P(S("in f")), RN()]), P(S("WRONG")), A.Return(I(1))]), P(A.call("f")),
+        A.FuncStmt("g", [], False, [A.While(A.Bool(True), [RN()]), P(S("WRONG")), A.Return(I(1))]), P(A.call("g")),
+        A.FuncStmt("h", [], False, [A.For(V("x"), A.lst(I(1)), [A.For(V("y"), S("ab"), [RN()]), P(S("WRONG"))]), P(S("WRONG")), A.Return(I(2))]), P(A.call("h")),
+        A.FuncStmt("k", [V("v")], False, [A.While(A.Bool(True), [A.Block([A.If([(A.Bool(True), [A.Return(V("v"))])], None)]), P(S("WRONG"))]), A.Return(S("WRONG"))]),
+        P(A.call("k", A.Null())), P(A.call("k", A.Bool(False))), P(A.call("k", I(0))), P(A.call("k", S(""))), P(A.call("k", A.lst())),
+        A.For(V("i"), A.lst(I(1), I(2)), [P(A.call("f")), P(S("after call in loop"))])]
+    cases["return_null_at_top_level_in_loop"] = [P(S("before")), A.For(V("_"), A.lst(I(1), I(2)), [P(S("body")), RN()]), P(S("after loop"))]
+    cases["return_value_at_top_level_in_loop"] = [P(S("before")), A.While(A.Bool(True), [P(S("body")), A.Return(I(0))]), P(S("after loop"))]
     cases["empty_bodies"] = [A.For(V("_"), A.lst(I(1), I(2)), []), P(S("a")), A.Declare(V("n"), I(0)), A.While(A.Bin("<", V("n"), I(0)), []), P(S("b")),
                              A.FuncStmt("e", [], False, []), P(A.call("e")), A.Block([A.Block([P(S("c"))])]), A.For(V("_"), A.lst(), W()), A.For(V("_"), S(""), W()), A.For(V("_"), A.obj(), W()),
                              A.For(V("_"), A.Range(I(2), I(2)), W()), P(S("d"))]
